@@ -255,6 +255,30 @@ def main(seed, n):
                 groups[key] = groups.get(key, 0) + 1
                 if groups[key] <= 2:
                     failures.append({"format": fmt, "case": ci, "seed": seed, "problem": problem[:400], "text": text})
+    # history on one VMX object: disks() before and after the dictionary grows the way unlock_with_phrase() grows it
+    # (attr.update(<decrypted dictionary>)): the second answer must be the expected list of the merged configuration
+    from dissect.hypervisor.descriptor.vmx import VMX
+
+    for ci in range(max(10, n // 8)):
+        text1, exp1 = gen_vmx(rng)
+        text2, exp2 = gen_vmx(rng)
+        evals += 1
+        try:
+            v = VMX.parse(text1 if ci % 2 else 'encryption.data = "x"\n')  # an encrypted file exposes no devices before it is unlocked
+            first = v.disks()
+            v.attr.update(**VMX.parse(text2).attr)
+            second = v.disks()
+            fresh = VMX.parse("")
+            fresh.attr = dict(v.attr)
+            want = fresh.disks()
+            ok = second == want and (ci % 2 == 1 or (first == [] and second == sorted(exp2)))
+            problem = f"disks() after the dictionary was extended returned {second!r}; a fresh object with the same dictionary reports {want!r} (first call returned {first!r})"
+        except Exception as e:  # noqa: BLE001
+            ok, problem = False, f"raise {type(e).__name__}: {e}"
+        if not ok:
+            groups["vmx:history"] = groups.get("vmx:history", 0) + 1
+            if groups["vmx:history"] <= 2:
+                failures.append({"format": "vmx", "case": ci, "seed": seed, "problem": problem[:400], "text": text2})
     print(json.dumps({"evaluations": evals, "distinct": nontrivial, "n_failures": sum(groups.values()), "groups": groups, "failures": failures,
                       "rule": "generated configurations: VMX (0..6 devices on scsi/sata/ide/nvme with 1-2 digit bus:unit numbers x device types {absent, disk, scsi-hardDisk, upper-case, cdrom-image, cdrom-raw, "
                               "atapi-cdrom} x key casing x quoting/spacing/CR x comments x unrelated keys incl. ones starting with a bus class name x reassigned file names); OVF (reference/disk/item graphs, "
